@@ -10,6 +10,7 @@ package c06
 import (
 	"fmt"
 	"sort"
+	"strings"
 	"testing"
 
 	"github.com/prometheus/common/model"
@@ -27,6 +28,7 @@ type replayCase struct {
 	KC   *keyCase               `json:"keycase,omitempty"`
 	SR   *dconc.StoreRaceParams `json:"storerace,omitempty"`
 	AS   *apiStampCase          `json:"apistamp,omitempty"`
+	AG   *apiGroupsCase         `json:"apigroups,omitempty"`
 }
 
 func coqLabels(ls model.LabelSet) string {
@@ -72,6 +74,10 @@ func TestCheck(t *testing.T) {
 		for i := 0; i < env.N(60, 5); i++ {
 			kcs = append(kcs, genKeyCase(rk.Fork()))
 		}
+		rk2 := vh.NewRand(env.Seed + 4129)
+		for i := 0; i < env.N(120, 5); i++ {
+			kcs = append(kcs, genKeyCaseRef(rk2.Fork()))
+		}
 		r := vh.NewRand(env.Seed)
 		n := env.N(160, 8)
 		for i := 0; i < n; i++ {
@@ -84,12 +90,24 @@ func TestCheck(t *testing.T) {
 		}
 	}
 	// ---- (d) group keys are a pure function of the configuration text ----
+	runK := vh.NewRun(env, "AM.Run.C06KRun")
+	runK.Prefix = "k"
 	for i := range kcs {
+		for _, term := range coqKeyCases(kcs[i]) {
+			runK.Add(term, replayCase{Kind: "keycase", KC: &kcs[i]}, strings.Count(term, "mkM") >= 6)
+		}
 		ok, what, nr := runKeyCase(kcs[i])
 		runA.CountN("key_purity", "configurations loaded 12 times", 1)
 		runA.CountN("key_purity", "routes compared", nr)
+		if kcs[i].Routes != nil {
+			runA.CountN("key_purity", "configurations compared with the reference key (several matchers per label)", 1)
+		}
 		if !ok {
-			runA.Violate("route-key-differs-between-loads", what, replayCase{Kind: "keycase", KC: &kcs[i]})
+			key := "route-key-differs-between-loads"
+			if kcs[i].Routes != nil && strings.Contains(what, "not the canonical function") {
+				key = "route-key-not-the-canonical-function-of-the-matchers"
+			}
+			runA.Violate(key, what, replayCase{Kind: "keycase", KC: &kcs[i]})
 		}
 	}
 	// ---- (a) + (b) ----
@@ -163,6 +181,11 @@ func TestCheck(t *testing.T) {
 	if err := runB.Finish("distinct (route group_by, alert labels, group labels) triples read from Dispatcher.Groups after every operation"); err != nil {
 		t.Fatal(err)
 	}
+	if runK.Len() > 0 {
+		if err := runK.Finish("routes of generated configurations with several matchers of different kinds on one label (plus deprecated match / match_re maps): matchers as written vs the matcher list of the built route (the order Route.Key prints); non-trivial = at least 3 matchers"); err != nil {
+			t.Fatal(err)
+		}
+	}
 	if err := runN.Finish("the same whole-instance scenarios as (a), one case per aggregation group for the product provider x group (Model/Ingest.v): every alert as SUBMITTED to the provider (all label sets), provider GCs that deleted something, and the group's events; the model's provider computes what is stored / handed on (overlap merge), so each flush instant and content must follow from the submissions; non-trivial = a submission that was merged with the stored alert, or >= 3 submissions and a flush"); err != nil {
 		t.Fatal(err)
 	}
@@ -230,7 +253,18 @@ func TestCheck(t *testing.T) {
 	}
 	apiStampPart(t, env, runC, asReplay)
 
-	if len(dcs) > 0 || env.Replay == "" || srp.Rounds > 0 || asReplay != nil {
+	// API-groups part (apigroups_test.go): GET /alerts/groups, with and without the receiver parameter, against the
+	// reference partition
+	var agReplay *apiGroupsCase
+	if env.Replay != "" {
+		var rc replayCase
+		if err := vh.LoadReplayCase(env.Replay, &rc); err == nil {
+			agReplay = rc.AG
+		}
+	}
+	apiGroupsPart(t, env, runC, agReplay)
+
+	if len(dcs) > 0 || env.Replay == "" || srp.Rounds > 0 || asReplay != nil || agReplay != nil {
 		if err := runC.Finish("hook-driven schedules (2 workers x 2-3 alerts x maintenance sweep x flush) of the group-map machine on the real dispatcher"); err != nil {
 			t.Fatal(err)
 		}
